@@ -3,16 +3,98 @@
 
 include!(concat!(env!("OUT_DIR"), "/server_bin.rs"));
 
-/// Run the real `main()` as the main thread of a simulated process.
+/// Run the real `main()` as the main thread of a simulated process. Whatever `main` returns
+/// (`()`, `ExitCode`, `Result<..>`) becomes the exit status the way the Rust runtime would make it.
 pub fn verif_main() {
-    main()
+    let code = verif_exit_status(main());
+    if code != 0 {
+        verif_std::process::exit(code);
+    }
 }
 
-/// A fresh process image: the binary's `KEEP_RUNNING` static is true again.
+fn verif_exit_status<T: std::process::Termination>(t: T) -> i32 {
+    let c = t.report();
+    if c == std::process::ExitCode::SUCCESS {
+        return 0;
+    }
+    // ExitCode has no accessor: its Debug form ends in the number
+    let d = format!("{:?}", c);
+    let digits: String = d.chars().filter(|ch| ch.is_ascii_digit()).collect();
+    digits.parse().unwrap_or(1)
+}
+
+/// The binary's shutdown flag, whatever it is wrapped in.
+trait VerifFlag {
+    fn v_set(&self, v: bool);
+    fn v_get(&self) -> bool;
+}
+
+impl VerifFlag for std::sync::atomic::AtomicBool {
+    fn v_set(&self, v: bool) {
+        self.store(v, std::sync::atomic::Ordering::SeqCst)
+    }
+    fn v_get(&self) -> bool {
+        self.load(std::sync::atomic::Ordering::SeqCst)
+    }
+}
+
+impl<F: FnOnce() -> std::sync::atomic::AtomicBool> VerifFlag for once_cell::sync::Lazy<std::sync::atomic::AtomicBool, F> {
+    fn v_set(&self, v: bool) {
+        (**self).v_set(v)
+    }
+    fn v_get(&self) -> bool {
+        (**self).v_get()
+    }
+}
+
+impl VerifFlag for once_cell::sync::OnceCell<std::sync::atomic::AtomicBool> {
+    fn v_set(&self, v: bool) {
+        if let Some(b) = self.get() {
+            b.v_set(v)
+        }
+    }
+    fn v_get(&self) -> bool {
+        self.get().map(|b| b.v_get()).unwrap_or(true)
+    }
+}
+
+impl<F: FnOnce() -> std::sync::atomic::AtomicBool> VerifFlag for std::sync::LazyLock<std::sync::atomic::AtomicBool, F> {
+    fn v_set(&self, v: bool) {
+        (**self).v_set(v)
+    }
+    fn v_get(&self) -> bool {
+        (**self).v_get()
+    }
+}
+
+impl VerifFlag for std::sync::OnceLock<std::sync::atomic::AtomicBool> {
+    fn v_set(&self, v: bool) {
+        if let Some(b) = self.get() {
+            b.v_set(v)
+        }
+    }
+    fn v_get(&self) -> bool {
+        self.get().map(|b| b.v_get()).unwrap_or(true)
+    }
+}
+
+/// A fresh process image: the binary's `KEEP_RUNNING` static is true again (statics outlive a
+/// simulated restart because both incarnations live in one OS process).
+#[cfg(verif_has_keep_running)]
 pub fn verif_reset() {
-    KEEP_RUNNING.store(true, Ordering::SeqCst);
+    VerifFlag::v_set(&KEEP_RUNNING, true);
 }
 
+#[cfg(verif_has_keep_running)]
 pub fn verif_keep_running() -> bool {
-    KEEP_RUNNING.load(Ordering::SeqCst)
+    VerifFlag::v_get(&KEEP_RUNNING)
+}
+
+/// (the binary has no static of that name any more: nothing to reset)
+#[cfg(not(verif_has_keep_running))]
+pub fn verif_reset() {}
+
+#[cfg(not(verif_has_keep_running))]
+pub fn verif_keep_running() -> bool {
+    true
 }
